@@ -29,6 +29,7 @@ type EvalCtx struct {
 	outer  *State
 	prev   *State
 	prevVars map[string]SVal // iteration variables at the loop header (inside prev())
+	loopBlocks map[*ssa.BasicBlock]bool // blocks of the loop whose transition is being evaluated (called())
 	pre    *State
 	qdepth int
 	quiet  bool // do not report evaluation errors of use clauses (they are evaluated at several points)
@@ -822,6 +823,30 @@ func (ev *EvalCtx) evalCall(e *Expr) (SVal, error) {
 	case "nopieces":
 		c.eng.sliceSort("Str")
 		return SVal{T: c.eng.zero("Sl.Str"), S: "Sl.Str"}, nil
+	case "called":
+		// called(f): was f called during the current turn of the loop (transition clauses) / on a path to this point?
+		if len(e.Args) != 1 || e.Args[0].Op != "ident" || ev.frame == nil {
+			return SVal{}, fmt.Errorf("called(name)")
+		}
+		var conds []string
+		for _, rec := range ev.frame.calls[e.Args[0].Name] {
+			if rec.blk == nil || (c.curBlk != nil && !c.blockReaches(rec.blk, c.curBlk)) {
+				continue
+			}
+			if ev.loopBlocks != nil && !ev.loopBlocks[rec.blk] {
+				continue
+			}
+			if r, ok := ev.frame.reach[rec.blk]; ok {
+				conds = append(conds, r)
+			}
+		}
+		if len(conds) == 0 {
+			return SVal{T: "false", S: "Bool"}, nil
+		}
+		if len(conds) == 1 {
+			return SVal{T: conds[0], S: "Bool"}, nil
+		}
+		return SVal{T: "(or " + strings.Join(conds, " ") + ")", S: "Bool"}, nil
 	case "lastresult", "lastarg":
 		// lastresult(f, k) / lastarg(f, k): k-th result / argument (receiver first) of the most recent call to the
 		// function or method named f made by the function under verification (exit clauses)
@@ -844,6 +869,35 @@ func (ev *EvalCtx) evalCall(e *Expr) (SVal, error) {
 				}
 				found = true
 				break
+			}
+		}
+		if !found && len(recs) == 0 {
+			// no call processed yet: take the sort from the callee's signature
+			for key, fn := range c.eng.funcs {
+				if strings.HasSuffix(key, "."+e.Args[0].Name) && fn != nil {
+					var t types.Type
+					if e.Name == "lastresult" {
+						if k >= 0 && k < fn.Signature.Results().Len() {
+							t = fn.Signature.Results().At(k).Type()
+						}
+					} else if k >= 0 && k < len(fn.Params) {
+						t = fn.Params[k].Type()
+					}
+					if t != nil {
+						srt := c.eng.sortOf(t)
+						return SVal{T: c.fresh("nocall."+e.Args[0].Name, srt), S: srt, GT: t}, nil
+					}
+				}
+			}
+		}
+		if !found && len(recs) > 0 {
+			// no call on a path to this point: the value is arbitrary here (clauses guard with called(f) or a path condition)
+			vs = recs[0].res
+			if e.Name == "lastarg" {
+				vs = recs[0].args
+			}
+			if k >= 0 && k < len(vs) {
+				return SVal{T: c.fresh("nocall."+e.Args[0].Name, vs[k].S), S: vs[k].S, GT: vs[k].GT}, nil
 			}
 		}
 		if !found || k < 0 || k >= len(vs) {
